@@ -6,8 +6,8 @@ from beziers.point import Point
 
 RULE = ('segments of order 2/3/4 from families int/float/grid/collinear/coincident/big(1e6)/tiny/near-coincident(1e-10 relative)/small-int, plus stale-state sequences (query, edit in place, query again vs a fresh object) x t,s in {0,1,dyadic,1/3,random}; '
         'non-trivial = control points not all equal; distinct = distinct (control polygon, t, s)')
-NOT_PROVED = ['floating-point clause: results within 1e-12 * max|coordinate| of the real-number identities (measured against exact rational arithmetic, not proved)']
-ASSUMPTIONS = ['Python float = IEEE binary64 round-to-nearest; small ints meeting floats behave as the equal float',
+NOT_PROVED = ['floating-point clause: PROVED (Proofs/C01float.v, Flocq) for evaluation, lerp, the control points of both split pieces and the derivative segments: binary64 result within 74*2^-53*M + 22*2^-1075 <= 1e-12*M + 2^-1070 of the real result for finite inputs with |coord| <= M <= 2^1000, t in [0,1]; the two retrace identities l(s) = B(s*t), r(s) = B(t+s(1-t)) in floating point for arbitrary s are a triangle-inequality consequence that is measured (against exact rational arithmetic), not stated as a theorem']
+ASSUMPTIONS = ['Coq.Floats.FloatAxioms (the standard library specification of the primitive binary64 operations, used through Flocq IEEE754.PrimFloat) for the float-clause theorems', 'Python float = IEEE binary64 round-to-nearest; small ints meeting floats behave as the equal float',
                'translator py2v (cross-checked bit-for-bit against CPython on every run)']
 HAND_FINGERPRINTS = []
 PFX = {2: 'Line', 3: 'Quad', 4: 'Cubic'}
